@@ -50,6 +50,12 @@ pub fn families(a: &Args, rng: &mut Rng) -> Vec<Fam> {
             v.push(Fam { t, fam: "subsumption" });
         }
     }
+    for t in loop_family(&pool) {
+        v.push(Fam { t, fam: "loop-of-loop" });
+    }
+    for t in adjacent_range_family(&pool) {
+        v.push(Fam { t, fam: "adjacent-ranges" });
+    }
     let nrand = a.sz(700, 12000);
     for i in 0..nrand {
         let d = 2 + (i % 4);
@@ -123,7 +129,8 @@ pub fn drive_c01(a: &Args) {
     let mut smt_jobs: Vec<(usize, usize)> = vec![];
     for (id, f) in fams.iter().enumerate() {
         // a fresh manager every 40 terms; in between the manager is "dirty" with earlier terms
-        if id % 40 == 0 {
+        if id % 40 == 0 || f.fam == "adjacent-ranges" {
+            // (creation order matters for that family: every term gets a fresh manager)
             mgr = ReManager::new();
         }
         let mut ends = vec![];
@@ -224,7 +231,8 @@ pub fn drive_c02(a: &Args) {
     let mut mgr = ReManager::new();
     let full_every = if a.thorough() { 40 } else { 400 };
     for (id, f) in fams.iter().enumerate() {
-        if id % 40 == 0 {
+        if id % 40 == 0 || f.fam == "adjacent-ranges" {
+            // (creation order matters for that family: every term gets a fresh manager)
             mgr = ReManager::new();
         }
         let mut ends = vec![];
@@ -324,7 +332,8 @@ pub fn drive_c03(a: &Args) {
     let mut mgr = ReManager::new();
     let per_term_nodes = a.sz(3, 6);
     for (id, f) in fams.iter().enumerate() {
-        if id % 40 == 0 {
+        if id % 40 == 0 || f.fam == "adjacent-ranges" {
+            // (creation order matters for that family: every term gets a fresh manager)
             mgr = ReManager::new();
         }
         let mut ends = vec![];
@@ -469,7 +478,8 @@ pub fn drive_c05(a: &Args) {
     let mut out = Out::create(&a.out, "c05_empty.ndjson");
     let mut mgr = ReManager::new();
     for (id, f) in fams.iter().enumerate() {
-        if id % 40 == 0 {
+        if id % 40 == 0 || f.fam == "adjacent-ranges" {
+            // (creation order matters for that family: every term gets a fresh manager)
             mgr = ReManager::new();
         }
         let r = guarded(|| {
@@ -529,7 +539,8 @@ pub fn drive_c18(a: &Args) {
     let mut out = Out::create(&a.out, "c18_start.ndjson");
     let mut mgr = ReManager::new();
     for (id, f) in fams.iter().enumerate() {
-        if id % 40 == 0 {
+        if id % 40 == 0 || f.fam == "adjacent-ranges" {
+            // (creation order matters for that family: every term gets a fresh manager)
             mgr = ReManager::new();
         }
         if !explore_ok(&f.t) {
@@ -611,7 +622,8 @@ pub fn drive_c19(a: &Args) {
     let mut out = Out::create(&a.out, "c19_closure.ndjson");
     let mut mgr = ReManager::new();
     for (id, f) in fams.iter().enumerate() {
-        if id % 40 == 0 {
+        if id % 40 == 0 || f.fam == "adjacent-ranges" {
+            // (creation order matters for that family: every term gets a fresh manager)
             mgr = ReManager::new();
         }
         let mut ends = vec![];
